@@ -225,3 +225,91 @@ def concurrency(lines):
 def pmap(fn, items, par=NPAR):
     with ThreadPoolExecutor(max_workers=par) as ex:
         return list(ex.map(fn, items))
+
+
+# ---------------------------------------------------------------------------
+# fragmented pipe input (O_DIRECT "packet" pipe: each write of <= PIPE_BUF bytes is
+# returned by exactly one read()), file input, stdout capture
+# ---------------------------------------------------------------------------
+def clean_env(extra=None):
+    e = dict(os.environ)
+    for k in list(e):
+        if k.startswith("LBZIP2") or k in ("BZIP2", "BZIP", "LD_PRELOAD") or k.startswith("SCHEDC_"):
+            del e[k]
+    if extra:
+        e.update(extra)
+    return e
+
+
+def run_piped(exe, args, data, frags=None, env=None, timeout=60, stdout_path=None):
+    """Feed `data` to the process through a packet pipe cut as `frags` (list of
+    sizes, cycled; None = one write per 4096 bytes).  Returns (rc, out, err, timed_out)."""
+    import threading
+    r, w = os.pipe2(os.O_DIRECT)
+    fout = open(stdout_path, "wb") if stdout_path else None
+    p = subprocess.Popen([exe] + list(args), stdin=r, stdout=fout if fout else subprocess.PIPE, stderr=subprocess.PIPE,
+                         env=clean_env(env))
+    os.close(r)
+
+    def feed():
+        try:
+            pos = 0
+            i = 0
+            n = len(data)
+            mv = memoryview(data)
+            while pos < n:
+                k = 4096 if not frags else max(1, min(4096, frags[i % len(frags)]))
+                i += 1
+                os.write(w, mv[pos:pos + k])
+                pos += k
+        except OSError:
+            pass
+        finally:
+            try:
+                os.close(w)
+            except OSError:
+                pass
+    th = threading.Thread(target=feed, daemon=True)
+    th.start()
+    try:
+        out, err = p.communicate(timeout=timeout)
+        to = False
+    except subprocess.TimeoutExpired:
+        p.kill()
+        out, err = p.communicate()
+        to = True
+    th.join(timeout=5)
+    if fout:
+        fout.close()
+    return p.returncode if not to else 124, out or b"", err or b"", to
+
+
+def run_file(exe, args, path, env=None, timeout=60):
+    with open(path, "rb") as f:
+        try:
+            p = subprocess.run([exe] + list(args), stdin=f, stdout=subprocess.PIPE, stderr=subprocess.PIPE,
+                               env=clean_env(env), timeout=timeout)
+            return p.returncode, p.stdout, p.stderr, False
+        except subprocess.TimeoutExpired as ex:
+            return 124, ex.stdout or b"", ex.stderr or b"", True
+
+
+def build_shim():
+    """LD_PRELOAD shim: heap counter + short writes/reads."""
+    import hashlib
+    src = os.path.join(vlib.VERIF, "harness", "schedc_heapcount.c")
+    so = os.path.join(vlib.WORK, "bin", "schedc_heapcount.so")
+    os.makedirs(os.path.dirname(so), exist_ok=True)
+    dig = hashlib.sha256(open(src, "rb").read()).hexdigest()
+    stamp = so + ".stamp"
+    if os.path.exists(so) and os.path.exists(stamp) and open(stamp).read() == dig:
+        return so
+    with vlib.Lock("build-schedc-shim"):
+        tmp = so + ".tmp%d" % os.getpid()
+        rc, out, err = vlib.sh(["gcc", "-O2", "-shared", "-fPIC", "-o", tmp, src, "-ldl"], timeout=120)
+        if rc != 0:
+            raise vlib.BuildError("schedc_heapcount.so does not compile:\n" + (out + err)[-2000:])
+        os.replace(tmp, so)
+        with open(stamp, "w") as f:
+            f.write(dig)
+    return so
